@@ -14,14 +14,15 @@ def run(tier, seed):
     quick = tier == "quick"
     fams = [
         ("mm", list(gen_match.match_matrix(rng, 2500 if quick else None)), 0 if quick else 1, 1, ("top", "fn0") if quick else None),
+        ("ma", list(gen_match.match_alternatives(rng, 2500 if quick else None)), 0, 1, ("top", "fn0") if quick else None),
         ("mr", gen_match.match_random(rng, 400 if quick else 10000), 1, 3, None),
         ("un", list(gen_match.unpack_matrix()), 1, 2, ("top", "fn3")),
     ]
     rep, preds, progs = core_replay.family_check(
         PROP, tier, seed, fams,
-        rule="match matrix: 28 subject values x 51 patterns (literals, ids, wildcards, nested tuple patterns with "
+        rule="match matrix: 28 subject values x 62 patterns (literals, ids, wildcards, nested tuple patterns with "
              "leading/trailing ... and named rest, map patterns with `as`, typed patterns) x arm position 0..2 x "
-             "guard none/true/false x trailing catch-all/else/nothing (sampled in quick, complete in thorough); random "
+             "guard none/true/false x trailing catch-all/else/nothing, and every pattern as first/second of two `or` alternatives x guard (both sampled in quick, complete in thorough); random "
              "matches with `or` alternatives and guards using bindings over a side-effecting subject; the complete "
              "unpacking matrix (multi-assignment and for-arguments against every iterable shape of length 0..4). "
              "Counted: programs decided by the machine.",
